@@ -93,3 +93,133 @@ Proof.
   exfalso. apply (Qlt_not_le _ _ Hd). eapply Qle_trans; [exact E|].
   rewrite <- (Qmult_1_l r) at 2. apply Qmult_le_compat_r; assumption.
 Qed.
+
+(* ================= patch-definition options and split_into_patches ================= *)
+From Coq Require Import Permutation.
+
+(* documented precedence: patch_centers > patch_name > patch_num *)
+Theorem determine_precedence :
+  (forall name num, determine true name num = Some Apply) /\
+  (forall num, determine false true num = Some Divide) /\
+  determine false false true = Some Create /\
+  determine false false false = None.
+Proof. repeat split. Qed.
+
+(* the assigned centre is a nearest one … *)
+Lemma argmin_lt row : row <> [] -> (argmin row < length row)%nat.
+Proof.
+  induction row as [|d r IH]; [congruence|]. intros _. destruct r as [|e r'].
+  - simpl. lia.
+  - change (argmin (d :: e :: r')) with (let k := argmin (e :: r') in if Qleb d (nth k (e :: r') 0) then 0%nat else S k).
+    cbv zeta. destruct (Qleb d (nth (argmin (e :: r')) (e :: r') 0)).
+    + simpl. lia.
+    + assert (H : (argmin (e :: r') < length (e :: r'))%nat) by (apply IH; congruence).
+      simpl length in *. lia.
+Qed.
+
+Theorem argmin_min row j : (j < length row)%nat -> nth (argmin row) row 0 <= nth j row 0.
+Proof.
+  revert j. induction row as [|d r IH]; intros j Hj; [simpl in Hj; lia|].
+  destruct r as [|e r'].
+  - simpl in Hj. assert (j = 0)%nat by lia. subst. simpl. apply Qle_refl.
+  - change (argmin (d :: e :: r')) with (let k := argmin (e :: r') in if Qleb d (nth k (e :: r') 0) then 0%nat else S k).
+    cbv zeta. set (k := argmin (e :: r')) in *.
+    destruct (Qleb d (nth k (e :: r') 0)) eqn:E.
+    + destruct j as [|j'].
+      * simpl. apply Qle_refl.
+      * change (d <= nth j' (e :: r') 0). eapply Qle_trans; [apply Qleb_le; exact E|].
+        apply IH. simpl in Hj |- *. lia.
+    + change (nth k (e :: r') 0 <= nth j (d :: e :: r') 0). destruct j as [|j'].
+      * simpl nth at 2. apply Qlt_le_weak, Qnot_le_lt. intro H. apply Qleb_le in H. congruence.
+      * change (nth k (e :: r') 0 <= nth j' (e :: r') 0). apply IH. simpl in Hj |- *. lia.
+Qed.
+
+(* … and a strictly nearest centre is the assigned one *)
+Theorem argmin_unique row k :
+  (k < length row)%nat -> (forall j, (j < length row)%nat -> j <> k -> nth k row 0 < nth j row 0) -> argmin row = k.
+Proof.
+  intros Hk H. destruct (Nat.eq_dec (argmin row) k) as [|N]; [assumption|exfalso].
+  assert (L : (argmin row < length row)%nat) by (apply argmin_lt; destruct row; [simpl in Hk; lia|congruence]).
+  specialize (H _ L N). apply (Qlt_not_le _ _ H). apply argmin_min. exact Hk.
+Qed.
+
+Lemma own_centre_nearest_spec row p :
+  own_centre_nearest row p = true <-> (p < length row)%nat /\ forall j, (j < length row)%nat -> nth p row 0 <= nth j row 0.
+Proof.
+  unfold own_centre_nearest. rewrite andb_true_iff, Nat.ltb_lt, forallb_forall. split; intros [H1 H2]; split; try assumption.
+  - intros j Hj. apply Qleb_le. apply H2. apply nth_In. exact Hj.
+  - intros x Hx. apply Qleb_le. destruct (In_nth _ _ 0 Hx) as [j [Hj <-]]. apply H2. exact Hj.
+Qed.
+
+Section SplitP.
+  Context {R : Type}.
+  Implicit Types (f : R -> nat) (chunks : list (chunk R)).
+
+  Lemma select_map f p (rs : list R) : select p rs (map f rs) = filter (fun r => (f r =? p)%nat) rs.
+  Proof.
+    unfold select. induction rs as [|r rs IH]; [reflexivity|]. simpl.
+    destruct (f r =? p)%nat; simpl; rewrite IH; reflexivity.
+  Qed.
+
+  (* centres given: patch p holds exactly the input records whose nearest centre is p, in input
+     order, whatever the chunking and whatever an index column says *)
+  Theorem apply_partition f chunks p :
+    patch_data (Some f) chunks p = Some (filter (fun r => (f r =? p)%nat) (concat (map recs chunks))).
+  Proof.
+    unfold patch_data. induction chunks as [|ch rest IH]; [reflexivity|].
+    simpl. rewrite IH. rewrite select_map, filter_app. reflexivity.
+  Qed.
+
+  Corollary apply_ignores_column f chunks chunks' p :
+    map recs chunks = map recs chunks' -> patch_data (Some f) chunks p = patch_data (Some f) chunks' p.
+  Proof. intros H. rewrite !apply_partition, H. reflexivity. Qed.
+
+  Corollary apply_any_chunking f chunks chunks' p :
+    concat (map recs chunks) = concat (map recs chunks') -> patch_data (Some f) chunks p = patch_data (Some f) chunks' p.
+  Proof. intros H. rewrite !apply_partition, H. reflexivity. Qed.
+
+  Lemma in_all_recs_perm chunks chunks' r :
+    Permutation chunks chunks' -> In r (concat (map recs chunks)) -> In r (concat (map recs chunks')).
+  Proof.
+    intros P H. apply in_concat in H as [l [Hl Hr]]. apply in_map_iff in Hl as [ch [<- Hch]].
+    apply in_concat. exists (recs ch). split; [|exact Hr]. apply in_map. eapply Permutation_in; eassumption.
+  Qed.
+
+  (* … and for every order in which the (sub-)chunks of the workers reach the writer *)
+  Theorem apply_belongs_any_order f chunks arrived p l r :
+    Permutation arrived chunks -> patch_data (Some f) arrived p = Some l ->
+    (In r l <-> In r (concat (map recs chunks)) /\ f r = p).
+  Proof.
+    intros P H. rewrite apply_partition in H. inversion H; subst l; clear H.
+    rewrite filter_In, Nat.eqb_eq. split; intros [H1 H2]; split; try assumption.
+    - eapply in_all_recs_perm; eassumption.
+    - eapply in_all_recs_perm; [apply Permutation_sym|]; eassumption.
+  Qed.
+
+  (* no centres: the column decides, chunk by chunk; without a column there is no catalog *)
+  Theorem divide_uses_column chunks p :
+    patch_data None chunks p =
+    patch_data_with (fun ch : chunk R => col ch) chunks p.
+  Proof. reflexivity. Qed.
+End SplitP.
+
+(* records = rows of distances to the given centres: every record stored in patch p has centre p
+   as a nearest centre (the reported centres reproduce the partition), with or without an index
+   column in the input, for every chunking and arrival order *)
+Theorem apply_reproduces_partition (chunks arrived : list (chunk (list Q))) p l row :
+  Permutation arrived chunks -> (forall ch r, In ch chunks -> In r (recs ch) -> r <> []) ->
+  patch_data (Some argmin) arrived p = Some l -> In row l -> own_centre_nearest row p = true.
+Proof.
+  intros P NE H Hin. apply (apply_belongs_any_order argmin chunks arrived p l row P H) in Hin as [Hin Hp].
+  apply own_centre_nearest_spec. subst p.
+  apply in_concat in Hin as [rs [Hrs Hr]]. apply in_map_iff in Hrs as [ch [<- Hch]].
+  split; [apply argmin_lt; eapply NE; eassumption|apply argmin_min].
+Qed.
+
+(* the other statement order is not the documented one: with a column that disagrees with the
+   nearest centre, patch 0 stores a record that is strictly nearer to centre 1 *)
+Theorem column_first_refuted :
+  exists (ch : chunk (list Q)) (row : list Q),
+    patch_data_colfirst (Some argmin) [ch] 0 = Some [row] /\ own_centre_nearest row 0 = false /\
+    patch_data (Some argmin) [ch] 0 = Some [] /\ patch_data (Some argmin) [ch] 1 = Some [row].
+Proof. exists {| recs := [[3#4; 1#4]]; col := Some [0%nat] |}, [3#4; 1#4]. vm_compute. repeat split. Qed.
